@@ -38,8 +38,8 @@ TABLE = {
     ("steps.retried", "+1", "Step", "Failed", "retry"): [],
     ("scenarios.retried", "+1", "Step", "Failed", "retry"): [r"Option::is_none\(&?.*\)"],
     ("failed_hooks", "+1", "Hook", "Failed", None): [],
-    ("scenarios.failed", "+1", "Hook", "Failed", None): [],
-    ("scenarios.skipped", "-1", "Hook", "Failed", None): [],
+    ("scenarios.failed", "+1", "Hook", "Failed", None): [r"discr\(std::option::Option\)", r"discr\(writer::summarize::Indicator\)"],
+    ("scenarios.skipped", "-1", "Hook", "Failed", None): [r"discr\(std::option::Option\)", r"discr\(writer::summarize::Indicator\)"],
     ("scenarios.passed", "+1", "Scenario", "Finished", None): [r"Not\(.*\)|is_some_and|is_none"],
 }
 COUNTERS = {"parsing_errors", "features", "rules", "failed_hooks", "steps.passed", "steps.skipped", "steps.failed",
@@ -55,9 +55,21 @@ def summarize_writes(F):
 leaf = W.leaf
 
 
+MANDATORY = {
+    ("event::Step", "Passed"): {"steps.passed"},
+    ("event::Step", "Skipped"): {"steps.skipped"},
+    ("event::Step", "Failed"): {"steps.failed", "steps.retried"},
+    ("event::Hook", "Failed"): {"failed_hooks"},
+    ("event::Feature", "Started"): {"features"},
+    ("event::Rule", "Started"): {"rules"},
+    ("std::result::Result", "Err"): {"parsing_errors"},
+}
+
+
 def r1(F, R):
-    W.check_counter_table(F, R, SUM, TABLE, COUNTERS)
-    R.floor(30)
+    root, bodies, ws = W.check_counter_table(F, R, SUM, TABLE, COUNTERS)
+    W.check_mandatory(F, R, SUM, ws, MANDATORY)
+    R.floor(36)
 
 
 def r2(F, R):
@@ -153,4 +165,49 @@ def r4(F, R):
     R.floor(1)
 
 
-RULES = [("R1", r1, None), ("R2", r2, None), ("R3", r3, None), ("R4", r4, None)]
+def r5(F, R):
+    """The per-scenario marker is cleared when the scenario's LAST step passed: the "is this the last step" test must
+    identify the step itself (whole-Step equality or its position), not just some attribute that other steps may share."""
+    root, bodies = W.handler_bodies(F, SUM)
+    n = 0
+    for b in bodies:
+        for s, t in b.calls(lambda t: callee_is(t, r"HashMap::<.*>::remove$")):
+            ctx = W.context(F, b, s, bodies, root)
+            if ctx.get("event::Step") != frozenset(["Passed"]):
+                continue
+            n += 1
+            ok, why = False, "the marker removal in the Step::Passed arm is not guarded by a last-step test"
+            for g in A.guards_of(b, s):
+                d = g.cond_def()
+                if not (d and d[0] == "call" and callee_is(d[2], r"Option::<.*>::(is_some|is_some_and)$") and g.polarity() is True):
+                    continue
+                x = A.canon_place(b, {"l": op_local(d[2]["args"][0]), "p": ["*"]})
+                fsd = b.single_def(x["l"]) if not x["p"] else None
+                if not (fsd and fsd[1] == "call" and callee_is(fsd[2], r"Option::<.*>::filter$")):
+                    continue
+                recv = A.slice_back(b, [fsd[2]["args"][0]])
+                if not (recv.has_call(r"slice::<impl \[.*\]>::last$", r"::last$") and ("gherkin::Scenario", "steps") in recv.fields):
+                    why = "the tested element is not `scenario.steps.last()`"
+                    continue
+                kb = A.closure_of_operand(F, b, fsd[2]["args"][1])
+                if kb is None:
+                    continue
+                sd = kb.single_def(0)
+                if sd and sd[1] == "call" and callee_is(sd[2], r"PartialEq.*::eq$"):
+                    selfty = (op_fn(sd[2]["func"]) or {}).get("self", "")
+                    if re.fullmatch(r"&*gherkin::Step", selfty):
+                        ok = True
+                    else:
+                        why = f"the last-step test compares `{selfty}` values, which different steps of a scenario may share"
+                elif sd and sd[1] == "assign" and sd[2]["rv"]["k"] == "bin" and sd[2]["rv"]["op"] == "Eq":
+                    fa = place_fields(A.canon_place(kb, op_place(sd[2]["rv"]["a"]))) if op_place(sd[2]["rv"]["a"]) else []
+                    ok = any(n2 == "position" for _, n2 in fa)
+                    if not ok:
+                        why = f"the last-step test compares {[n2 for _, n2 in fa]} only"
+            R.check(ok, "marker-cleared-on-last-step-only", s, "remove(..) iff steps.last() == this step (whole-Step equality)", why +
+                    ": an earlier step can clear the scenario's retried/failed marker, so the scenario is counted again")
+    R.check(n == 1, "marker-removal-site", root, "", f"{n} marker removals in the Step::Passed arm")
+    R.floor(2)
+
+
+RULES = [("R5", r5, None), ("R1", r1, None), ("R2", r2, None), ("R3", r3, None), ("R4", r4, None)]
